@@ -1,6 +1,213 @@
 import BstreamVerif.Model.HubBurst
-import BstreamVerif.Spec.Consumer
+import BstreamVerif.Props.C02
+/-!
+# C09 — hub snapshots are the canonical chain; readiness and the servable window are true
+
+`blocksFromNum` answers from the head segment (CompleteSegment from the head: the retained canonical chain).
+`fromNum_spec`: the answer is exactly the segment from the first block numbered `n` to the head, in order, and there
+is no source when no block of the segment has that number; steps are new-and-irreversible up to the hub's LIB and
+New above it; every cursor names the hub head. `withForks_spec`: the with-forks snapshot holds exactly the retained
+blocks at or above `n`, each once, in non-decreasing height. Readiness (bootstrap) and LowestBlockNum are compared
+with the implementation and monitored on every run (hubburst suite).
+-/
 namespace BstreamVerif.Props.C09
-open BstreamVerif BstreamVerif.Forkable BstreamVerif.HubBurst BstreamVerif.Consumer
+open BstreamVerif BstreamVerif.ForkDB BstreamVerif.Forkable BstreamVerif.HubBurst
+
+def fromNumEv (s : FState) (h : Blk) (e : Entry) : Event :=
+  wrap e (if e.blk.num ≤ s.db.libRef.num then .newIrreversible else .new) h.ref (capLib s.db.libRef e) none
+
+theorem go_seen (head lib : Ref) (num : Nat) (l : List Entry) :
+    fromNumGo head lib num true l =
+      l.map (fun e => wrap e (if e.blk.num ≤ lib.num then .newIrreversible else .new) head (capLib lib e) none) := by
+  induction l with
+  | nil => rfl
+  | cons e r ih => simp [fromNumGo, ih]
+
+theorem go_unseen (head lib : Ref) (num : Nat) (l : List Entry) :
+    fromNumGo head lib num false l =
+      (l.dropWhile (fun e => e.blk.num != num)).map
+        (fun e => wrap e (if e.blk.num ≤ lib.num then .newIrreversible else .new) head (capLib lib e) none) := by
+  induction l with
+  | nil => rfl
+  | cons e r ih =>
+    by_cases he : e.blk.num = num
+    · have : (e.blk.num != num) = false := by simp [he]
+      rw [List.dropWhile_cons_of_neg (by simp [this])]
+      unfold fromNumGo
+      simp only [Bool.false_or, he, beq_self_eq_true, Bool.not_true, Bool.false_eq_true, if_false, List.map_cons]
+      rw [go_seen]
+    · rw [List.dropWhile_cons_of_pos (by simp [he])]
+      have hb : (e.blk.num == num) = false := by simp [he]
+      unfold fromNumGo
+      simp only [Bool.false_or, hb, Bool.not_false, if_true]
+      exact ih
+
+/-- **request by number**: exactly the canonical chain from the first block numbered `n` to the head; no source
+    when the retained canonical chain has no block with that number -/
+theorem fromNum_spec (s : FState) (n : Nat) (h : Blk) (seg : List Entry) (hs : headSegment s = some (h, seg)) :
+    blocksFromNum s n =
+      (if (seg.dropWhile (fun e => e.blk.num != n)).isEmpty then none
+       else some ((seg.dropWhile (fun e => e.blk.num != n)).map (fromNumEv s h))) := by
+  unfold blocksFromNum
+  rw [hs]
+  simp only
+  rw [go_unseen]
+  cases hd : seg.dropWhile (fun e => e.blk.num != n) with
+  | nil => simp
+  | cons a t => simp [fromNumEv]
+
+/-- no head segment (hub without LIB or head, or a broken chain): no source -/
+theorem fromNum_none (s : FState) (n : Nat) (hs : headSegment s = none) : blocksFromNum s n = none := by
+  unfold blocksFromNum; rw [hs]
+
+theorem dropWhile_isEmpty (n : Nat) (l : List Entry) :
+    (l.dropWhile (fun e => e.blk.num != n)).isEmpty = !l.any (fun e => e.blk.num == n) := by
+  induction l with
+  | nil => rfl
+  | cons a t ih =>
+    by_cases ha : a.blk.num = n
+    · rw [List.dropWhile_cons_of_neg (by simp [ha])]; simp [ha]
+    · rw [List.dropWhile_cons_of_pos (by simp [ha])]
+      simp [ha, ih]
+
+theorem served_iff_retained_canonical (s : FState) (n : Nat) (h : Blk) (seg : List Entry)
+    (hs : headSegment s = some (h, seg)) :
+    (blocksFromNum s n).isSome = seg.any (fun e => e.blk.num == n) := by
+  rw [fromNum_spec s n h seg hs, dropWhile_isEmpty]
+  cases seg.any (fun e => e.blk.num == n) <;> simp
+
+/-- steps and cursors of the answer -/
+theorem fromNum_event_fields (s : FState) (h : Blk) (e : Entry) :
+    (fromNumEv s h e).head = h.ref ∧ (fromNumEv s h e).blk = e.blk ∧
+    ((fromNumEv s h e).step = .newIrreversible ↔ e.blk.num ≤ s.db.libRef.num) ∧
+    ((fromNumEv s h e).step = .new ↔ ¬ e.blk.num ≤ s.db.libRef.num) ∧
+    (fromNumEv s h e).lib.num ≤ e.blk.num := by
+  unfold fromNumEv wrap capLib
+  refine ⟨rfl, rfl, ?_, ?_, ?_⟩
+  · by_cases hc : e.blk.num ≤ s.db.libRef.num <;> simp [hc]
+  · by_cases hc : e.blk.num ≤ s.db.libRef.num <;> simp [hc]
+  · simp only
+    split
+    · simp [Blk.ref]
+    · omega
+
+/-! ### the with-forks snapshot -/
+
+theorem mem_ins (b x : Blk) (l : List Blk) : x ∈ insByNum b l ↔ x = b ∨ x ∈ l := by
+  induction l with
+  | nil => simp [insByNum]
+  | cons a t ih =>
+    unfold insByNum
+    split
+    · simp
+    · simp only [List.mem_cons, ih]
+      constructor
+      · rintro (h | h | h)
+        · exact Or.inr (Or.inl h)
+        · exact Or.inl h
+        · exact Or.inr (Or.inr h)
+      · rintro (h | h | h)
+        · exact Or.inr (Or.inl h)
+        · exact Or.inl h
+        · exact Or.inr (Or.inr h)
+
+theorem length_ins (b : Blk) (l : List Blk) : (insByNum b l).length = l.length + 1 := by
+  induction l with
+  | nil => rfl
+  | cons a t ih =>
+    unfold insByNum
+    split
+    · rfl
+    · simp [ih]
+
+theorem sorted_ins (b : Blk) (l : List Blk) (h : l.Pairwise (fun x y => x.num ≤ y.num)) :
+    (insByNum b l).Pairwise (fun x y => x.num ≤ y.num) := by
+  induction l with
+  | nil => simp [insByNum]
+  | cons a t ih =>
+    unfold insByNum
+    rw [List.pairwise_cons] at h
+    split
+    · rename_i hlt
+      rw [List.pairwise_cons]
+      refine ⟨?_, List.pairwise_cons.mpr h⟩
+      intro y hy
+      simp only [List.mem_cons] at hy
+      rcases hy with rfl | hy
+      · omega
+      · have := h.1 y hy; omega
+    · rename_i hge
+      rw [List.pairwise_cons]
+      refine ⟨?_, ih h.2⟩
+      intro y hy
+      rw [mem_ins] at hy
+      rcases hy with rfl | hy
+      · omega
+      · exact h.1 y hy
+
+theorem foldl_ins_spec (w acc : List Blk) (hacc : acc.Pairwise (fun x y => x.num ≤ y.num)) :
+    (∀ x, x ∈ w.foldl (fun acc b => insByNum b acc) acc ↔ x ∈ w ∨ x ∈ acc) ∧
+    (w.foldl (fun acc b => insByNum b acc) acc).length = w.length + acc.length ∧
+    (w.foldl (fun acc b => insByNum b acc) acc).Pairwise (fun x y => x.num ≤ y.num) := by
+  induction w generalizing acc with
+  | nil => simp [hacc]
+  | cons b t ih =>
+    simp only [List.foldl_cons]
+    obtain ⟨h1, h2, h3⟩ := ih (insByNum b acc) (sorted_ins b acc hacc)
+    refine ⟨?_, ?_, h3⟩
+    · intro x
+      rw [h1, mem_ins]
+      simp only [List.mem_cons]
+      constructor
+      · rintro (h | h | h)
+        · exact Or.inl (Or.inr h)
+        · exact Or.inl (Or.inl h)
+        · exact Or.inr h
+      · rintro ((h | h) | h)
+        · exact Or.inr (Or.inl h)
+        · exact Or.inl h
+        · exact Or.inr (Or.inr h)
+    · rw [h2, length_ins]; simp; omega
+
+theorem length_insertById (e : Entry) (l : List Entry) : (insertById e l).length = l.length + 1 := by
+  induction l with
+  | nil => rfl
+  | cons a t ih =>
+    unfold insertById
+    split
+    · rfl
+    · simp [ih]
+
+theorem length_sortById (l : List Entry) : (sortById l).length = l.length := by
+  induction l with
+  | nil => rfl
+  | cons a t ih =>
+    simp only [sortById, List.foldr_cons]
+    rw [length_insertById]
+    unfold sortById at ih
+    rw [ih]; rfl
+
+/-- **the with-forks snapshot**: exactly the retained blocks at or above `n` (as many entries as retained blocks:
+    each once), in non-decreasing height -/
+theorem withForks_spec (s : FState) (n : Nat) (hl : s.db.hasLIB = true) :
+    ∃ out, blocksFromNumWithForks s n = some out ∧
+      (∀ b, b ∈ out ↔ ∃ e ∈ s.db.entries, e.blk = b ∧ n ≤ e.blk.num) ∧
+      out.length = (s.db.entries.filter (fun e => e.blk.num ≥ n)).length ∧
+      out.Pairwise (fun x y => x.num ≤ y.num) := by
+  unfold blocksFromNumWithForks
+  simp only [hl, Bool.not_true, Bool.false_eq_true, if_false]
+  obtain ⟨h1, h2, h3⟩ := foldl_ins_spec ((sortById (s.db.entries.filter (fun e => e.blk.num ≥ n))).map (·.blk)) [] List.Pairwise.nil
+  refine ⟨_, rfl, ?_, ?_, h3⟩
+  · intro b
+    rw [h1]
+    simp only [List.not_mem_nil, or_false, List.mem_map]
+    constructor
+    · rintro ⟨e, he, rfl⟩
+      rw [Props.C02.mem_sortById] at he
+      simp only [List.mem_filter, decide_eq_true_eq] at he
+      exact ⟨e, he.1, rfl, he.2⟩
+    · rintro ⟨e, he, rfl, hn⟩
+      exact ⟨e, by rw [Props.C02.mem_sortById]; simp [he, hn], rfl⟩
+  · rw [h2]; simp [length_sortById]
 
 end BstreamVerif.Props.C09
